@@ -19,12 +19,23 @@ Clauses covered:
       collection types with their own rule); TLC enumerates the trees, the driver builds each one from a fixed family
       of Go types and calls xconfmap.Validate; compared: reported rules = failing reachable rules (parents failing or
       valid), each at its path.
-  1. TLC exhaustive design checks (WalkSound; WalkComplete, WalkPaths, OnlyPromotedExtra).
+  (d) defaults overlaid by exactly the written keys, in the typed AND in the effective configuration, secrets redacted:
+      ConfigOverlay.tla -- settings with factory defaults (value typed, behind a pointer, in a map, in a slice) and
+      secret-typed settings (configopaque.String) in every container position the encoder distinguishes (plain field,
+      pointer, slice, map value, struct in a map, struct in a slice, squashed embedded struct) next to plain strings with the
+      same kind of text; HISTORIES of loads in one process.  Per load: typed = defaults overlaid by its own writes (secrets in
+      clear text); effective (conf.Marshal, what extensions are handed) = the same with the redaction marker for every written
+      secret; and no written secret text occurs ANYWHERE in the marshalled effective configuration (whole-tree search).  How
+      an unwritten, empty secret is rendered is undocumented by configopaque and left open.  The same whole-tree search is
+      applied to documents of the REAL otlphttp exporter (headers, TLS pem material) and otlp receiver (response_headers).
+  1. TLC exhaustive design checks (WalkSound; WalkComplete, WalkPaths, OnlyPromotedExtra; Faithful, Redacted -- the variants with
+     defaults built once per process / with an encoder fast path for maps of string kind are refuted by TLC inside the check).
   2. TLC prints every configuration / value tree of the same spaces with the statement-level answer; each is loaded /
      walked by the real code and compared.
 Still NOT covered (DESIGN 4 C13): per-field faithfulness of the built-in components' config structs (only the test
-component's fields and a few service::telemetry fields are compared), redaction / the effective configuration handed
-to extensions (conf.Marshal), the nested Validate() rules of built-in components themselves.
+component's fields, a few service::telemetry fields and the secret settings of two real components are compared), what
+extensions actually receive through NotifyConfig (the check marshals the configuration the way otelcol/collector.go does, it
+does not run an extension), the nested Validate() rules of built-in components themselves.
 """
 import json, os, re, random
 import vlib, graphlib
@@ -155,7 +166,9 @@ def expected_view(doc):
             v["comps"][sec][i] = dict(endpoint=body.get("endpoint", "default:1"), limit=body.get("limit", 7),
                                       nested=dict(flag=nested.get("flag", False), name=nested.get("name", "dflt")),
                                       table=None if table is None else {r: dict(weight=(row or {}).get("weight", 0)) for r, row in table.items()},
-                                      opt=dict(size=5, mode="m0"), labels=dict(env="dev"), hosts=["h0", "hx"])
+                                      opt=dict(size=5, mode="m0"), labels=dict(env="dev"), hosts=["h0", "hx"],
+                                      sec=dict(secret="", secret_ptr=None, secrets=[], secret_map={}, rows={}, row_list=[], password="",
+                                               public="", public_map={}))
     for pid, body in (svc.get("pipelines") or {}).items():
         v["pipelines"][pid] = {k: list(body.get(k) or []) for k in ("receivers", "processors", "exporters")}
     return v
@@ -352,9 +365,16 @@ def _comp(c):
     return "rt/" + c
 
 
+SEC_KEYS = {"sec.plain": ["secret"], "sec.ptr": ["secret_ptr"], "sec.list": ["secrets"], "sec.map.k": ["secret_map", "k"],
+            "sec.rowmap": ["rows", "r1"], "sec.rowlist": ["row_list"], "sec.squash": ["password"],
+            "pub.plain": ["public"], "pub.map.k": ["public_map", "k"]}
+
+
 def setting_path(sname):
     """setting of ConfigOverlay.tla -> path in the document"""
     p = sname.split(".")
+    if ".".join(p[1:]) in SEC_KEYS:
+        return ["receivers", _comp(p[0])] + SEC_KEYS[".".join(p[1:])]
     if p[0] == "tl":
         return ["service", "telemetry", "logs"] + (["sampling", p[2]] if p[1] == "s" else [p[1]])
     if p[0] == "tm":
@@ -363,6 +383,14 @@ def setting_path(sname):
 
 
 def token_value(sname, tok):
+    if sname.endswith(".sec.rowmap"):
+        return {"token": tok}
+    if sname.endswith(".sec.rowlist"):
+        return [{"token": tok}]
+    if sname.endswith(".sec.list"):
+        return tok.split(",")
+    if ".sec." in sname or ".pub." in sname:
+        return tok
     if sname.endswith(".hosts"):
         return [x for x in tok.split(",") if x]
     if tok in ("true", "false") and (sname.endswith("enabled") or sname.endswith("flag")):
@@ -378,7 +406,9 @@ def to_token(v):
     if isinstance(v, bool):
         return "true" if v else "false"
     if isinstance(v, list):
-        return ",".join(str(x) for x in v)
+        return ",".join(to_token(x.get("token")) if isinstance(x, dict) else str(x) for x in v)
+    if isinstance(v, dict) and set(v) == {"token"}:
+        return to_token(v["token"])
     return str(v)
 
 
@@ -406,6 +436,10 @@ def observed_tokens(o, names):
         elif p[0] == "tm":
             typed[s] = to_token(v["metrics_level"]).lower()
             effective[s] = to_token(eff.get("metrics_level")).lower()
+        elif ".".join(p[1:]) in SEC_KEYS:
+            kp = SEC_KEYS[".".join(p[1:])]
+            typed[s] = to_token(dig(v["comps"]["receivers"], [_comp(p[0]), "sec"] + kp))
+            effective[s] = to_token(dig(eff, ["receivers", _comp(p[0])] + kp))
         else:
             typed[s] = to_token(dig(v["comps"]["receivers"], [_comp(p[0])] + p[1:]))
             effective[s] = to_token(dig(eff, ["receivers", _comp(p[0])] + p[1:]))
@@ -447,14 +481,20 @@ def compare_load(ld, o):
         return None
     if o.get("eff_err"):
         return "effective configuration could not be marshalled: %s" % o["eff_err"]
+    if o.get("leaks"):
+        lk = o["leaks"][0]
+        return "secret text %r occurs in the effective configuration handed to extensions, at %s" % (lk["needle"], lk["path"].lstrip(":"))
     typed, eff = observed_tokens(o, ld["typed"])
-    for what, got in (("typed", typed), ("effective (conf.Marshal)", eff)):
-        bad = sorted(s for s in ld["typed"] if ld["typed"][s] != got[s])
+    for what, got, want in (("typed", typed, ld["typed"]), ("effective (conf.Marshal)", eff, ld["effective"])):
+        bad = sorted(s for s in want if want[s] != "<open>" and want[s] != got[s])
+        if bad and what.startswith("effective") and any(w["s"] == bad[0] and w["sec"] for w in ld["w"]):
+            return "secret-typed setting %s is not redacted in the effective configuration: shows %r, must show %r" % (
+                "::".join(setting_path(bad[0])), got[bad[0]], want[bad[0]])
         if bad:
             s0 = bad[0]
             written = {w["s"] for w in ld["w"]}
             return "%s configuration is not 'defaults overlaid by exactly the written keys': %s = %r, must be %r (%s)" % (
-                what, "::".join(setting_path(s0)), got[s0], ld["typed"][s0], "written by this document" if s0 in written else "NOT written by this document: factory default")
+                what, "::".join(setting_path(s0)), got[s0], want[s0], "written by this document" if s0 in written else "NOT written by this document: factory default")
     return None
 
 
@@ -463,7 +503,9 @@ def run_seq_file(c, binp, seqs, label):
     inp = os.path.join(c.work, "seq_%s.ndjson" % label)
     out = os.path.join(c.work, "seqres_%s.ndjson" % label)
     types = {k: ["rt", "e1"] for k in ("receivers", "processors", "exporters", "connectors", "extensions")}
-    vlib.write_ndjson(inp, [dict(docs=[ld["_doc"] for ld in sq], types=types) for sq in seqs])
+    # needles: the secret texts each document wrote -- they may occur nowhere in its effective configuration
+    vlib.write_ndjson(inp, [dict(docs=[ld["_doc"] for ld in sq], types=types,
+                                 needles=[[x for w in ld["w"] if w.get("sec") for x in w["v"].split(",") if x] for ld in sq]) for sq in seqs])
     c.run([binp, "seq", inp, out], timeout=1800)
     res = vlib.read_ndjson(out)
     if len(res) != len(seqs) or any(len(r["loads"]) != len(sq) for r, sq in zip(res, seqs)):
@@ -480,7 +522,7 @@ def first_mismatch(seqs, res):
     return None
 
 
-def run_histories(c, binp, seqs, label, procs=4):
+def run_histories(c, binp, seqs, label, procs=6):
     procs = procs if len(seqs) < 50000 else 6
     """The histories are split into `procs` contiguous chunks, each chunk is loaded by ONE process on one goroutine, history
     after history.  Every load is compared with its own specification.  Because process-wide state may carry over from
@@ -525,16 +567,69 @@ def run_histories(c, binp, seqs, label, procs=4):
     return [r for res in results for r in res]
 
 
-def overlay_cfg(loads, writes, defects, invs, share=False):
+def part_builtin(pc, binp, k, _):
+    """real built-in components: secrets written into the opaque settings of the otlphttp exporter (headers, TLS pem material) and
+    of the otlp receiver (http response_headers), one at a time and all together; loaded through the same path.  The typed
+    configuration must hold the clear text, the marshalled effective configuration must not contain it anywhere."""
+    secrets = {"hdr": "S3CR3T-hdr", "rhdr": "S3CR3T-rhdr", "key": "S3CR3T-keypem", "cert": "S3CR3T-certpem", "ca": "S3CR3T-capem"}
+    docs = []
+    for pick in [[x] for x in ("hdr", "rhdr", "ca")] + [["key", "cert"], sorted(secrets), []]:
+        exp = {"endpoint": "http://localhost:1"}
+        rcv = {"protocols": {"http": {"endpoint": "localhost:0"}}}
+        if "hdr" in pick:
+            exp["headers"] = {"x-api-key": secrets["hdr"], "plain-name": "v-%d" % pc.rng.randrange(9)}
+        tls = {}
+        for name, key in (("key", "key_pem"), ("cert", "cert_pem"), ("ca", "ca_pem")):
+            if name in pick:
+                tls[key] = secrets[name]
+        if tls:
+            exp["tls"] = tls
+        if "rhdr" in pick:
+            rcv["protocols"]["http"]["response_headers"] = {"x-token": secrets["rhdr"]}
+        doc = {"receivers": {"otlp": rcv}, "exporters": {"otlphttp": exp},
+               "service": {"pipelines": {"traces": {"receivers": ["otlp"], "exporters": ["otlphttp"]}}}}
+        docs.append(dict(pick=pick, doc=json.dumps(doc), needles=[secrets[x] for x in pick]))
+    inp = os.path.join(pc.work, "builtin.ndjson")
+    out = os.path.join(pc.work, "builtin_res.ndjson")
+    vlib.write_ndjson(inp, [dict(doc=d["doc"], needles=d["needles"]) for d in docs])
+    pc.run([binp, "builtin", inp, out], timeout=600)
+    res = vlib.read_ndjson(out)
+    if len(res) != len(docs):
+        raise vlib.Inconclusive("driver loaded %d of %d built-in documents" % (len(res), len(docs)))
+    nbad = 0
+    for d, o in zip(docs, res):
+        why = None
+        if o.get("panic"):
+            why = "loading panicked: %s" % o["panic"]
+        elif o["err"]:
+            raise vlib.Inconclusive("built-in document was not accepted (%s): %s" % (o["stage"], o["err"][:300]))
+        elif o["leaks"]:
+            why = "secret text %r occurs in the effective configuration handed to extensions, at %s" % (
+                o["leaks"][0]["needle"], o["leaks"][0]["path"].lstrip(":"))
+        elif ("hdr" in d["pick"] and o["headers"].get("x-api-key") != secrets["hdr"]) or \
+             ("rhdr" in d["pick"] and o["response_headers"].get("x-token") != secrets["rhdr"]) or \
+             ("key" in d["pick"] and o["key_pem"] != secrets["key"]):
+            why = "typed configuration does not hold the written secret: headers %s response_headers %s" % (o["headers"], o["response_headers"])
+        elif o["redacted"] < len(d["pick"]):
+            why = "only %d redaction markers in the effective configuration for %d written secrets" % (o["redacted"], len(d["pick"]))
+        if why:
+            nbad += 1
+            pc.violation("%s; built-in document %s" % (why, d["doc"][:400]), replay_obj=dict(kind="builtin", doc=d))
+    pc.total += len(docs)
+    pc.log("loaded %d documents of real built-in components with secrets: %d mismatches" % (len(docs), nbad))
+
+
+def overlay_cfg(loads, writes, defects, invs, share=False, fastpath=False):
     return """SPECIFICATION OSpec
 CONSTANTS
   MaxLoads = %d
   MaxWrites = %d
   Defects = %s
   ShareDefaults = %s
+  MapFastPath = %s
 INVARIANTS %s
 CHECK_DEADLOCK FALSE
-""" % (loads, writes, q(defects), "TRUE" if share else "FALSE", invs)
+""" % (loads, writes, q(defects), "TRUE" if share else "FALSE", "TRUE" if fastpath else "FALSE", invs)
 
 
 class Part:
@@ -620,7 +715,7 @@ def part_walk(pc, binp, k, w):
 def part_overlay(pc, binp, k, ov):
     """clause (d): histories of loads in one process, defaults overlaid by exactly the written keys"""
     nl, nw, df = ov
-    r = pc.tlc("ConfigValidate", "ConfigOverlayGen", cfg_text=overlay_cfg(nl, nw, df, "Faithful EmitHist"), workers=1, timeout=1800,
+    r = pc.tlc("ConfigValidate", "ConfigOverlayGen", cfg_text=overlay_cfg(nl, nw, df, "Faithful Redacted EmitHist"), workers=1, timeout=1800,
                label="overlay%d" % k, count=True, heap="8g")
     if not r.ok:
         raise vlib.Inconclusive("overlay design check / generator failed: %s\n%s" % (r.error, (r.trace_text or r.out)[-1500:]))
@@ -643,6 +738,11 @@ def part_overlay(pc, binp, k, ov):
                    label="overlay_shared", count=False)
         if r.ok or not r.error or r.error[0] != "invariant":
             raise vlib.Inconclusive("ConfigOverlay with ShareDefaults=TRUE should violate Faithful (the model lost its bite): %s" % (r.error,))
+        # ... and so is the encoder that copies map values of string KIND without the encode hook
+        r = pc.tlc("ConfigValidate", "ConfigOverlay", cfg_text=overlay_cfg(1, 1, [], "Redacted", fastpath=True), workers=1, timeout=600,
+                   label="overlay_fastpath", count=False)
+        if r.ok or not r.error or r.error[0] != "invariant":
+            raise vlib.Inconclusive("ConfigOverlay with MapFastPath=TRUE should violate Redacted (the model lost its bite): %s" % (r.error,))
 
 
 def run(c):
@@ -652,7 +752,10 @@ def run(c):
         rp = json.load(open(c.replay))["replay"]
         c.tlc_must_pass("ConfigValidate", "ConfigValidate", files=PGFILES, timeout=600, label="design",
                         cfg_text=cfg_text("Pipes2", ["r1"], ["p1"], ["e1"], ["ca1"], 3, ["x1"], 1, "WalkSound"))
-        if rp.get("kind") == "seq":
+        if rp.get("kind") == "builtin":
+            part_builtin(Part(c, 0), binp, 0, None)
+            c.sample(dict(kind="replayed built-in documents", doc=rp["doc"]["doc"]))
+        elif rp.get("kind") == "seq":
             run_histories(c, binp, [rp["loads"]], "replay")
             c.sample(dict(kind="replayed history", docs=[ld["_doc"] for ld in rp["loads"]]))
         elif rp.get("kind") == "walk":
@@ -675,13 +778,13 @@ def run(c):
                  ("Pipes2", ["r1"], ["p1"], ["e1"], ["ca1"], 2, ["x1"], 0, 2),
                  ("Pipes2", ["r1", "r2"], ["p1"], ["e1"], ["ca1"], 4, ["x1"], 0, 1)]
     walks = [(2, 1, 1, 2), (2, 2, 1, 1)] if qk else [(2, 2, 1, 2), (3, 3, 1, 1), (2, 1, 1, 4)]
-    ovs = [(2, 1, ["dangling", "unknownkey"])] if qk else [(3, 1, []), (2, 1, ["dangling", "unknownkey"]), (2, 2, [])]
+    ovs = [(2, 1, ["dangling"])] if qk else [(3, 1, []), (2, 1, ["dangling", "unknownkey"]), (2, 2, [])]
     # the parts are independent: they run side by side (own PRNG each, see Part)
     from concurrent.futures import ThreadPoolExecutor
     jobs = [(part_docs, k, u) for k, u in enumerate(universes)] + [(part_walk, k, w) for k, w in enumerate(walks)] + \
-           [(part_overlay, k, ov) for k, ov in enumerate(ovs)]
+           [(part_overlay, k, ov) for k, ov in enumerate(ovs)] + [(part_builtin, 0, None)]
     parts = [Part(c, n) for n in range(len(jobs))]
-    with ThreadPoolExecutor(max_workers=5 if qk else 4) as ex:
+    with ThreadPoolExecutor(max_workers=6 if qk else 4) as ex:
         futs = [ex.submit(fn, pc, binp, k, arg) for pc, (fn, k, arg) in zip(parts, jobs)]
         errs = []
         for f in futs:
@@ -705,9 +808,15 @@ def run(c):
                              "class at depth 1-3) is rejected naming key and place, while the same key where a field accepts it is decoded "
                              "faithfully together with sibling settings and defaults (test component config + a few telemetry fields); "
                              "(c) every nested validation rule is evaluated and reported at its path by the xconfmap.Validate walk, over "
-                             "generated value trees covering every kind of nesting. NOT covered: per-field faithfulness of the built-in "
-                             "components' own config structs, redaction / the effective configuration marshalled for extensions "
-                             "(conf.Marshal), the Validate() rules of built-in components themselves")
+                             "generated value trees covering every kind of nesting; (d) over histories of loads in one process every load's "
+                             "typed configuration = factory defaults overlaid by exactly its own written keys (value / pointer / map / "
+                             "slice settings, siblings keep defaults), its effective configuration (conf.Marshal) shows the same with every "
+                             "written secret-typed value (configopaque.String as field, pointer, slice element, map value, inside a struct "
+                             "in a map / slice, in a squashed struct) replaced by the redaction marker, and no written secret text occurs "
+                             "anywhere in the marshalled effective configuration -- also for real otlphttp exporter / otlp receiver "
+                             "documents (headers, response_headers, TLS pem). NOT covered: per-field faithfulness of the built-in components' "
+                             "own config structs beyond those secret settings, the rendering of unwritten empty secrets (undocumented), what "
+                             "an extension actually receives via NotifyConfig, the Validate() rules of built-in components themselves")
     c.assumptions += ["'names the offending entry' is checked as: one line of the joined error contains the pipeline id and the quoted "
                       "component id (resp. the extension / connector id) of at least one offending entry the specification lists; for an "
                       "unknown key: the decoder's error lists the key after 'invalid keys:' and contains the place's path elements",
